@@ -39,6 +39,8 @@ BranchClauses(e) ==
 Clauses(e) == CASE e.ev = "conv" -> ConvClauses(e)
                 [] e.ev = "exists" -> ExistsClauses(e)
                 [] e.ev = "branch" -> BranchClauses(e)
+                [] e.ev = "import" -> {<<"C11", "NoPanic", e.panic = "">>,
+                                       <<"C11", "ImportPosition", e.imperr = "" /\ e.imported = e.expected>>}
                 [] e.ev = "pathset" -> {<<"C11", "NoPanic", e.panic = "">>, <<"C11", "PathSetKeepsAll", e.count = e.n /\ Len(e.missing) = 0>>}
                 [] OTHER -> {}
 
